@@ -99,3 +99,43 @@ def c18(run):
                        'sub-second and MinInt64 x issuer/audience combinations x struct/map path with Go integer kinds, negatives, floats, text, null; '
                        'distinct_nontrivial = distinct (path, decision, flags, claim classes) keys')
     return D.finish(run, 'proof')
+
+
+def dev(run, stream, targets):
+    """development helper: build targets, run one correspondence stream, print mismatches"""
+    ok, o = D.regenerate()
+    rc, mlog = D.coq_make(targets)
+    if rc != 0:
+        print(mlog[-3000:])
+        return 1
+    rc, o = D.harness_build()
+    if rc != 0:
+        print(o[-3000:])
+        return 1
+    D.correspond(run, stream, [])
+    for b in run.broken[:15]:
+        print('BROKEN', b['what'], b['detail'][:600])
+    for f in run.failures[:15]:
+        print('FAIL', json.dumps(f)[:700])
+    print('evaluations', run.cov['evaluations'], 'broken', len(run.broken), 'failures', len(run.failures))
+    return 0
+
+
+# ------------------------------------------------------------------ C16
+
+@check('C16')
+def c16(run):
+    run.assumptions += ['crypto primitives (ed25519 public derivation, EC scalar multiplication, on-curve test) are universally quantified in the theorems; '
+                        'in the correspondence they are instantiated with the values observed from Go crypto for each case',
+                        'PARTIAL for the history clause: lists holding an operation foreign to the family that are installed after construction are finding F15']
+    run.trusted += ['model of reflect kinds / key.Ops representations in coq/Model/GoVal.v and Model/Key.v (validated by the ops correspondence)']
+    D.prove(run, extra_targets=['Model/KeyCorr.vo'])
+    rc, o = D.harness_build()
+    if rc != 0:
+        run.broke('harness build', o[-1500:])
+    else:
+        D.correspond(run, 'ops', [])
+    run.cov['rule'] = ('8 families x roles (create/verify, encrypt/decrypt, sign, verify with public or private key, ECDH) x key_ops lists (subsets of 1..10, foreign values, repeats; '
+                       'thorough: all 1023 subsets) x 14 representations incl. malformed x histories of SetOps/operations after construction; '
+                       'distinct_nontrivial = distinct (family, representation, built, list length) keys')
+    return D.finish(run, 'proof')
